@@ -163,16 +163,25 @@ def step (w : W) (toks : List String) : W × String :=
       | .panic => (w, "panic " ++ showState w)
     | none => (w, "bad-op")
   | ["v.createPool", owner, name, amt, dur, vt] =>
-    match parseAddr owner, optInt? amt, int? dur with
+    -- `addVestingPool` keeps the pools under `accAddress.String()`: the canonical spelling
+    match parseAcct owner, optInt? amt, int? dur with
     | some o, some a, some d => runMsg (trackAddr w o) (.createPool o (unesc name) a d (unesc vt))
     | _, _, _ => (w, "bad-op")
   | ["v.withdraw", owner] =>
     match parseAddr owner with
-    | some o => runMsg (trackAddr w o) (.withdraw o)
+    | some o =>
+      -- `WithdrawAllAvailable` looks the pools up under the RAW owner string of the message: for the
+      -- upper-case spelling of an owner whose pools were created by message there is nothing (D38)
+      if o.ok && o.s ≠ o.s.toLower && (w.st.pools.get? o.s).isNone then (trackAddr w o, s!"err paid=0 ev=[] {showState (trackAddr w o)}")
+      else runMsg (trackAddr w o) (.withdraw o)
     | none => (w, "bad-op")
   | ["v.send", owner, to, pool, amt, restart] =>
     match parseAddr owner, parseAcct to, optInt? amt with
-    | some o, some t, some a => runMsg (trackAddr (trackAddr w o) t) (.send o t (unesc pool) a (restart = "1"))
+    | some o, some t, some a =>
+      -- same raw lookup in `SendToNewVestingAccount` (after ValidateBasic)
+      if o.ok && o.s ≠ o.s.toLower && (w.st.pools.get? o.s).isNone && validateBasic (.send o t (unesc pool) a (restart = "1")) then
+        (trackAddr (trackAddr w o) t, s!"err paid=0 ev=[] {showState (trackAddr (trackAddr w o) t)}")
+      else runMsg (trackAddr (trackAddr w o) t) (.send o t (unesc pool) a (restart = "1"))
     | _, _, _ => (w, "bad-op")
   | ["v.createVA", src, to, coins, ss, es] =>
     match parseAcct src, parseAcct to, parseOptCoins coins, int? ss, int? es with
